@@ -396,6 +396,10 @@ thread_local! {
 }
 
 pub fn run_case(case: &C13Case) -> CaseReport {
+    run_probe(case)
+}
+
+pub fn run_probe(case: &C13Case) -> CaseReport {
     let c2 = case.clone();
     let (recs, end) = fork_stream(30_000, move |fd| child(&c2, fd));
     let mut rep = CaseReport::default();
@@ -519,6 +523,7 @@ pub fn run_case(case: &C13Case) -> CaseReport {
     for r in recs.iter().filter(|r| r["k"] == "burst-readerless") {
         rep.class("reader-hung-up");
         if r["w_open"] != true || r["w2_open"] == false {
+            rep.viol("C01/released-in-handler", "a self-pipe action released the descriptor it captured from inside a signal delivery, while still registered (captures are released once, by the removing thread, outside any handler)".into());
             rep.viol("C13/closed-early", format!("after {} deliveries into a pipe whose reader had hung up, the action's descriptor is gone although the action is still registered (released inside a delivery, not by the removal)", r["n"]));
         }
         let n = r["n"].as_u64().unwrap_or(0);
